@@ -323,6 +323,37 @@ impl<const K: usize, const B: usize> Txt<K, B> {
         Txt { buf, len: pos, pre_b, pre_c, pre_nl, pre_line_b, pre_line_c, n, ch, start }
     }
 
+    /// Like `any` with the constant prefix "é\ncArds" (8 bytes, 7 chars, one line feed), written without loops so
+    /// that the harness's global unwind bound is not raised by the prefix length.
+    pub(crate) fn any_after_cards() -> Self {
+        let mut buf = [0u8; B];
+        let pfx: [u8; 8] = [0xc3, 0xa9, b'\n', b'c', b'A', b'r', b'd', b's'];
+        buf[0] = pfx[0];
+        buf[1] = pfx[1];
+        buf[2] = pfx[2];
+        buf[3] = pfx[3];
+        buf[4] = pfx[4];
+        buf[5] = pfx[5];
+        buf[6] = pfx[6];
+        buf[7] = pfx[7];
+        let n: usize = kani::any();
+        kani::assume(n <= K);
+        let mut ch = ['\0'; K];
+        let mut start = [0usize; K];
+        let mut pos = 8usize;
+        let mut i = 0;
+        while i < K {
+            if i < n {
+                let c: char = kani::any();
+                ch[i] = c;
+                start[i] = pos;
+                pos += c.encode_utf8(&mut buf[pos..]).len();
+            }
+            i += 1;
+        }
+        Txt { buf, len: pos, pre_b: 8, pre_c: 7, pre_nl: 1, pre_line_b: 3, pre_line_c: 2, n, ch, start }
+    }
+
     pub(crate) fn as_str(&self) -> &str {
         unsafe { std::str::from_utf8_unchecked(&self.buf[..self.len]) }
     }
